@@ -148,6 +148,15 @@ Theorem C17_progress_applies_somewhere :
 Proof. exact Progress.progress_applies_somewhere. Qed.
 Print Assumptions C17_progress_applies_somewhere.
 
+(*    8g. the lock state derived from the program counters IS a lock state, and the instances are counted: in every state
+          reachable — under either variant of the waiter — from requests, updates and queries that have not begun, at most M
+          instances are in use, updateLock has at most one holder, stateLock at most one writer and no reader beside it *)
+Theorem C17_lock_model_is_safe : forall M wl n ts ts',
+  forallb Progress.fresh ts = true -> Progress.steps M wl n ts ts' ->
+  Progress.inuse ts' <= M /\ Progress.uholders ts' <= 1 /\ Progress.writers ts' <= 1 /\ (Progress.writers ts' = 1 -> Progress.readers ts' = 0).
+Proof. exact Progress.at_most_M_instances_in_use. Qed.
+Print Assumptions C17_lock_model_is_safe.
+
 (* 9. what the per-run discipline checks MEAN (Race/WaitFacts.v), for ANY table that passes them — in particular the one T2
       regenerates from engine/gengine_pool.go at every run (obligations/GenWaitOk.v):
       9a. the acquisition order has no cycle: along "held while acquiring" (directly or through calls) the rank of the mutexes
